@@ -1,6 +1,6 @@
 (* C16 — property theorems (statements only; proofs live in Proofs*.v). *)
 From Coq Require Import ZArith QArith Qabs List Bool.
-Require Import QV.C16.Model QV.C16.Spec QV.C16.Proofs QV.C16.Proofs2 QV.C16.Proofs3 QV.C16.Proofs4 QV.C16.Proofs5 QV.C16.Proofs_term QV.C16.Proofs6 QV.C16.Proofs_fuel.
+Require Import QV.C16.Model QV.C16.Spec QV.C16.Proofs QV.C16.Proofs2 QV.C16.Proofs3 QV.C16.Proofs4 QV.C16.Proofs5 QV.C16.Proofs_term QV.C16.Proofs6 QV.C16.Proofs_fuel QV.C16.Proofs7.
 Import ListNotations.
 Open Scope Z_scope.
 
@@ -190,3 +190,10 @@ Theorem C16_plays_nonvacuous :
   exists o, compile (ex_cfg 3 5) ex_tbl ex_prog = Ok o.
 Proof. exact ex_hyps. Qed.
 Print Assumptions C16_plays_nonvacuous.
+
+(* (7) the evaluation form of the specification used by Corr.check_spec (codes / marker booleans computed once per
+   waveform of the table, then concatenated in play order; markers still every second sample of the whole program) is
+   the specification, for every configuration, table and program (no hypotheses) *)
+Theorem C16_spec_cached_eq : forall c tbl prog, spec_cached c tbl prog = spec c tbl prog.
+Proof. exact spec_cached_eq. Qed.
+Print Assumptions C16_spec_cached_eq.
